@@ -1021,7 +1021,7 @@ pub fn case(directed: bool, max_threads: usize, max_ops: usize) -> BoxedStrategy
             threads,
             main_owner,
             schedule: if directed { Some(sched) } else { None },
-            late_subs: !directed && late == 0,
+            late_subs: !directed && late < 2,
             recorded: None,
         })
         .boxed()
